@@ -34,6 +34,7 @@ def main():
     chk = Check("C02")
     chk.mc("GF_small.cfg" if chk.thorough else "GF_q_small.cfg")
     chk.mc("GF_deadline.cfg" if chk.thorough else "GF_q_deadline.cfg")
+    chk.mc("GF_live.cfg")     # liveness under weak fairness, no state constraint: a limited run terminates
     chk.tv(groups(1500 if chk.thorough else 120, chk.seed), "C02 sweep")
     chk.assumptions += ["justification classes are computed by an independent dense oracle on the internal (scaled, slack-embedded) "
                         "point reconstructed from the user's callbacks, tolerances opt_tol / local_infeas_tol with 1e-9 / 1e-6 relative slack",
